@@ -289,7 +289,7 @@ def run(ctx):
                 "the projection observed after every step; 14 x 14 expression values and 300 random bit length sets are "
                 "compared. Non-trivial = pair of different descriptions; distinct by hash")
     ctx.assumptions = ["TLC's evaluation of the specification", "byte / utf8 element types and service types are not in the universe of pairs"]
-    c02.run_cfg(ctx, "Values", "Values_pairs.cfg", pair_worker, "pairs")
+    c02.run_cfg(ctx, "Values", "Values_pairs.cfg", pair_worker, "pairs", shuffle=True)
     c02.run_cfg(ctx, "Values", "Values_acc_quick.cfg" if ctx.tier == "quick" else "Values_acc.cfg", acc_worker, "acc",
                 mk=lambda blocks: [(b, ctx.seed) for b in blocks])
     c02.consume(ctx, core.pmap(expr_worker, [ctx.seed], procs=1), "expr")
